@@ -56,6 +56,7 @@ type Sched struct {
 	Trace    []string // "name@site" per step (kept short)
 	KeepTrace bool
 	Finished func() bool // workload-complete predicate, evaluated at quiescence
+	After    func()      // optional: runs on the root goroutine, inside the bubble, after the loop
 	Sites    map[string]int
 }
 
@@ -254,6 +255,10 @@ func Run(t *testing.T, s *Sched, body func(s *Sched)) {
 
 			body(s)
 			s.loop()
+
+			if s.After != nil && s.Deadlock == "" && !s.CapHit {
+				s.After()
+			}
 		})
 	}()
 
